@@ -19,8 +19,8 @@ CLAIMS = {
    text="Duplicate member names - spelled differently through escapes, at depth 0/1 and inside arrays, or colliding after U+FFFD substitution - are rejected on Value.IsValid, the ReadToken loop, the ReadValue loop and the untyped unmarshal fast path exactly when the reference (names compared after unescaping) says so, for AllowDuplicateNames x AllowInvalidUTF8; the struct-field bit set (uintSet) behaves as a mathematical set from an arbitrary state (z3 and cvc5 agree).",
    note="Struct targets with symbolic member names are exercised by the C15 harnesses; map targets and embedded fallbacks are outside."),
  "C09": dict(ref="5/C09",
-   text="Differential symbolic execution of v1.Valid/Compact/Indent/HTMLEscape and the source of the standard library's encoding/json on the same symbolic bytes: both succeed or fail together and produce identical bytes, for all byte strings up to the bound, alphabet-restricted longer strings, skeletons with holes, and six prefix/indent pairs.",
-   note="Only the reflection-free entry points of package v1; error text and offsets are not compared."),
+   text="Differential symbolic execution of package v1 and the SOURCE of the standard library's encoding/json on the same symbolic data, through the reflect environment for both: Valid/Compact/Indent/HTMLEscape on all byte strings up to the bound, alphabet strings, skeletons and six prefix/indent pairs; Marshal/MarshalIndent on 8 real type families with symbolic contents; Unmarshal on 59 skeletons with symbolic names/values (case-insensitive names, wrong kinds, quoted numbers, null, duplicates, unknown members; targets untouched on invalid syntax) plus concrete float texts; Decoder (solver-chosen sequences of Decode/Token/More with InputOffset after every call, UseNumber, DisallowUnknownFields) and Encoder (SetIndent, SetEscapeHTML): succeed or fail together, identical bytes, equal values.",
+   note="Six behavioural differences found on the pinned tree are recorded as known findings and attributed by tight regions; anything else is a violation. Error text, v1.Number vs json.Number, Decoder.Buffered and calls after the first error are outside."),
  "C14": dict(ref="5/C14",
    text="On a real Go struct type holding every merge-capable kind (nested struct, pointer, map, slice, array, interface, scalar) the real Unmarshal is executed symbolically twice: j1 populates all fields, j2 mentions one member as a value, as null or partially; the final Go value must equal the value prescribed by the documented merge rules for all symbolic digits, letters and keys (equal and distinct keys both occur): 21 obligations explored completely.",
    note="One type graph, two texts; the law is conditional on acceptance (a shorter JSON array or a string into an interface holding a map are legitimately refused). reflect is the engine's go/types-backed environment model; the harness replays natively verbatim."),
